@@ -52,9 +52,15 @@ type Stats struct {
 
 type item struct{ path []fmt.Stringer }
 
+// Workers overrides the number of exploring goroutines (0 = number of CPUs).
+var Workers = 0
+
 // Explore runs the BFS up to maxDepth. Returns stats; violations are reported to run.
 func Explore(run *core.Run, h Harness, maxDepth int) Stats {
 	workers := runtime.NumCPU()
+	if Workers > 0 {
+		workers = Workers
+	}
 	var st Stats
 	seen := &sync.Map{}
 	outcomes := &sync.Map{}
